@@ -93,6 +93,19 @@ func Build(rule Rule) (WireFormat, error) {
 	return ard.toWireFormat(), nil
 }
 
+// isWatchField reports whether a -w rule has the given field at position idx.
+func isWatchField(idx int, fieldID field) bool {
+	switch idx {
+	case 0:
+		return fieldID == pathField || fieldID == dirField
+	case 1:
+		return fieldID == permField
+	case 2:
+		return fieldID == keyField
+	}
+	return false
+}
+
 // ToCommandLine decodes a WireFormat into a command-line rule.
 // When resolveIds is set, it tries to resolve the argument to UIDs, GIDs,
 // file_type fields.
@@ -132,11 +145,18 @@ func ToCommandLine(wf WireFormat, resolveIds bool) (rule string, err error) {
 	// Detect if rule is a watch.
 	// Must have all syscalls and perm field. Only other valid fields are
 	// dir, path and key, according to auditctl source
-	if permIdx, ok := existingFields[permField]; r.allSyscalls && ok {
+	// The -w form always installs an always,exit rule that compares path (or
+	// dir), perm and key, in this order, with '='. Anything else has to be
+	// listed as a syscall rule or it would mean something different.
+	if permIdx, ok := existingFields[permField]; r.allSyscalls && ok && r.flags == exitFilter && r.action == alwaysAction {
 		extraFields, pos := false, 0
 		var path, key string
 	loop:
-		for _, fieldID := range r.fields {
+		for idx, fieldID := range r.fields {
+			if !isWatchField(idx, fieldID) || idx >= len(r.fieldFlags) || r.fieldFlags[idx] != equalOperator {
+				extraFields = true
+				break loop
+			}
 			switch fieldID {
 			case keyField, pathField, dirField:
 				if pos >= len(r.strings) {
